@@ -150,6 +150,10 @@ fn main() {
             other if other.starts_with("session:") => {
                 // forms separated by ";;" are evaluated one by one in the same VM, continuing after failures
                 for part in other["session:".len()..].split(";;") {
+                    if part.trim() == "#size" {
+                        println!("  debug size {}", format!("{:?}", vm).len());
+                        continue;
+                    }
                     let r = eval_all(&mut vm, part);
                     println!("  {} => {:?} frames={:?}", part.trim(), r, vm.last_stacktrace().map(|t| t.frames.len()));
                 }
